@@ -715,6 +715,32 @@ class Normaliser:
         changed = False
 
         class T(ast.NodeTransformer):
+            def visit_JoinedStr(inner, node: ast.JoinedStr):
+                # f'bytes {f"{a}-{b}"}' -> f'bytes {a}-{b}' (a text helper inlined into an f-string)
+                nonlocal changed
+                inner.generic_visit(node)
+                vals = []
+                for v in node.values:
+                    if isinstance(v, ast.FormattedValue) and v.conversion == -1 and v.format_spec is None \
+                            and isinstance(v.value, ast.JoinedStr):
+                        vals.extend(v.value.values)
+                        changed = True
+                    elif isinstance(v, ast.FormattedValue) and v.conversion == -1 and v.format_spec is None \
+                            and isinstance(v.value, ast.Constant) and isinstance(v.value.value, str):
+                        vals.append(ast.Constant(value=v.value.value))
+                        changed = True
+                    else:
+                        vals.append(v)
+                # merge neighbouring constants
+                merged = []
+                for v in vals:
+                    if merged and isinstance(v, ast.Constant) and isinstance(merged[-1], ast.Constant):
+                        merged[-1] = ast.Constant(value=merged[-1].value + v.value)
+                    else:
+                        merged.append(v)
+                node.values = merged
+                return node
+
             def visit_Call(inner, node: ast.Call):
                 nonlocal changed
                 inner.generic_visit(node)
